@@ -417,7 +417,7 @@ def _compl(a: List[Interval]) -> List[Interval]:
         if lo > cur:
             out.append((cur, lo - 1))
         cur = hi + 1
-    if cur <= INF:
+    if cur < INF:
         out.append((cur, INF))
     return _norm(out)
 
